@@ -400,6 +400,30 @@ func genConv(t *rapid.T) Case {
 		c.Want = append([]string{"0 true"}, c.Want...)
 		class += "+after-error"
 	}
+	// err and errmsg are globals: where the conversion is called from makes no difference to
+	// what the top level reads afterwards
+	if i := strings.Index(c.Src, "r := "); i >= 0 {
+		j := i + strings.Index(c.Src[i:], "\n")
+		call, rty := c.Src[i+len("r := "):j], map[bool]string{true: "bool", false: "num"}[isBool]
+		place := rapid.SampledFrom([]string{"top", "top", "if-block", "for-block", "function", "function-in-block", "nested-blocks"}).Draw(t, "place")
+		repl := ""
+		switch place {
+		case "if-block":
+			repl = "r:" + rty + "\nif true\n    r = " + call + "\nend"
+		case "for-block":
+			repl = "r:" + rty + "\nfor range 1\n    r = " + call + "\nend"
+		case "function":
+			repl = "func conv:" + rty + "\n    return (" + call + ")\nend\nr := conv"
+		case "function-in-block":
+			repl = "func conv:" + rty + "\n    x := " + call + "\n    return x\nend\nr:" + rty + "\nif true\n    r = conv\nend"
+		case "nested-blocks":
+			repl = "r:" + rty + "\nfor range 1\n    if true\n        while true\n            r = " + call + "\n            break\n        end\n    end\nend"
+		}
+		if repl != "" {
+			c.Src = c.Src[:i] + repl + c.Src[j:]
+			class += "+called-from-" + place
+		}
+	}
 	c.Classes = []string{class}
 	return c
 }
@@ -644,7 +668,7 @@ func genFormat(t *rapid.T) Case {
 }
 
 func genControl(t *rapid.T) Case {
-	kind := rapid.SampledFrom([]string{"exit", "panic", "test", "test-failfast", "len-badarg", "test-message"}).Draw(t, "kind")
+	kind := rapid.SampledFrom([]string{"exit", "panic", "test", "test-failfast", "len-badarg", "test-message", "test-then-exit", "test-then-panic"}).Draw(t, "kind")
 	c := Case{Fn: kind}
 	switch kind {
 	case "exit":
@@ -748,6 +772,19 @@ func genControl(t *rapid.T) Case {
 			c.Classes = []string{fmt.Sprintf("format-message:%d", n)}
 		}
 		c.Want = []string{"❌ 1 failed test", "✔️ 0 passed tests"}
+	case "test-then-exit":
+		// a failed test does not end the run (without fail-fast); a later exit still terminates it with its own status
+		n := rapid.SampledFrom([]int{2, 3, 7, 42}).Draw(t, "status")
+		c.Src = "test 1 2\nprint \"before\"\nexit " + strconv.Itoa(n) + "\nprint \"after\"\n"
+		c.Want, c.Class, c.Why = []string{"before", "❌ 1 failed test", "✔️ 0 passed tests"}, "exit:"+strconv.Itoa(n), "exit terminates the program with the given status code, also after a failed test"
+		c.ExitCode = &n
+		c.Classes = []string{strconv.Itoa(n)}
+	case "test-then-panic":
+		one := 1
+		c.Src = "test 1 2\nprint \"before\"\npanic \"boom\"\nprint \"after\"\n"
+		c.Want, c.Class, c.MsgHas, c.Why = []string{"before", "❌ 1 failed test", "✔️ 0 passed tests"}, "panic:user", "line 3 column 1: boom", "a panic after a failed test is still reported with its message and status 1"
+		c.ExitCode = &one
+		c.Classes = []string{"boom"}
 	case "len-badarg":
 		arg := rapid.SampledFrom([]string{"1", "true", "(-2.5)"}).Draw(t, "arg")
 		c.Src = "print (len " + arg + ")\n"
